@@ -56,14 +56,27 @@ class CallbackMonitor(DeliveryMonitor):
 
 def scenario(params, ch):
     direction, msgs, blackout, longframe, order, latency = params
+    # options ride on the order field: "cs|dt60" (60 Hz frames), "cs|ka0.5" (keep-alive = resend delay 0.5 s on both
+    # ends), "cs|bidi" (the peer sends with callbacks at the same time)
+    opts = order.split("|")[1:]
+    order = order.split("|")[0]
     mon = CallbackMonitor()
-    dt = msgs[0][3] if msgs and msgs[0][0] == "stream" else 1.0 / 64
-    w = World(order=order, latency=latency, chooser=ch, monitors=[mon], dt=dt)
+    dt = msgs[0][3] if msgs and msgs[0][0] == "stream" else (1.0 / 60 if "dt60" in opts else 1.0 / 64)
+    ka = next((float(o[2:]) for o in opts if o.startswith("ka")), None)
+    w = World(order=order, latency=latency, chooser=ch, monitors=[mon], dt=dt,
+              server_cfg=({"setKeepAliveInterval": ka} if ka else None), client_cfg=({"setKeepAliveInterval": ka} if ka else None))
     sender = direction[0]
     try:
         w.run_until_connected()
         w.run(2)
         w.fates = FATES
+        if "bidi" in opts:
+            other = "s" if sender == "c" else "c"
+            for j, (size, retry) in enumerate((("small", "retry"), ("small", "none"))):
+                tag = "o%d" % j
+                data = payload(20 + j, SIZES[size])
+                mon.sends[tag] = (other, data, retry, w.vt.now, "single")
+                app_send(w, mon, other, data, retry, tag=tag)
         if msgs and msgs[0][0] == "stream":
             # a stream: one unretried message per tick, so that > 32 datagrams are outstanding
             # while the acks are held back by the blackout parameter
@@ -177,6 +190,13 @@ def params_list(tier):
             # (RTT >= outgoing_timeout is outside the statement: every ack then arrives 'after the timeout elapsed'.)
             for lat in ((8,) if tier == "quick" else (8, 20, 28)):
                 out.append((direction, msgs, None, 0, "cs", lat))
+        # 60 Hz frames (frame == send_interval: borderline float comparisons), a long keep-alive/resend interval, and
+        # both ends sending with callbacks at once
+        for o in (("cs|dt60", "cs|ka0.5", "cs|bidi") if tier == "quick" else ("cs|dt60", "sc|dt60", "cs|ka0.5", "cs|ka1.0", "cs|bidi", "sc|bidi|dt60")):
+            for msgs in ((("small", "retry"), ("small", "none")), (("frag2", "retry"),), (("small", "best"),)):
+                out.append((direction, msgs, None, 0, o, 1))
+                if tier == "thorough" or msgs[0][1] == "retry":
+                    out.append((direction, msgs, ("s2c" if direction == "c2s" else "c2s", 0, 13), 0, o, 1))
         # a second message queued exactly when the resend of the first is due, acks late
         for at in ((7,) if tier == "quick" else (6, 7, 8, 13)):
             ack_dir0 = "s2c" if direction == "c2s" else "c2s"
